@@ -42,6 +42,8 @@ type Handle struct {
 	Clock   *VClock
 	sqlite  *queue.SQLiteStore
 	ro      *sql.DB
+	// handles abandoned by Reopen(true), closed with the Handle
+	abandoned []*queue.SQLiteStore
 }
 
 var storeSeq atomic.Int64
@@ -117,8 +119,14 @@ func (h *Handle) Reopen(abandon bool) error {
 		_ = h.ro.Close()
 		h.ro = nil
 	}
-	if !abandon && h.sqlite != nil {
-		_ = h.sqlite.Close()
+	if h.sqlite != nil {
+		if abandon {
+			// the dead process's handle stays open (no graceful close) until the
+			// harness is done with this database; then its descriptors are released
+			h.abandoned = append(h.abandoned, h.sqlite)
+		} else {
+			_ = h.sqlite.Close()
+		}
 	}
 	return h.openSQLite()
 }
@@ -132,6 +140,10 @@ func (h *Handle) Close() {
 		_ = h.sqlite.Close()
 		h.sqlite = nil
 	}
+	for _, st := range h.abandoned {
+		_ = st.Close()
+	}
+	h.abandoned = nil
 }
 
 // Row is one message as seen in a snapshot.
